@@ -1,9 +1,65 @@
-(** C15 -- hyperedge replacement is typed, fresh and order-independent. *)
-From Coq Require Import List Arith Bool.
+(** C15 -- hyperedge replacement is typed, fresh and order-independent.
+    Only property theorems live here, each closed by [exact] and followed by Print Assumptions. *)
+From Coq Require Import List Arith Bool Permutation.
 Import ListNotations.
-Require Import Fggs.Model.Replace.
+Require Import Fggs.Model.Replace Fggs.Proofs.Replace_spec Fggs.Proofs.Replace_model_spec
+  Fggs.Proofs.Replace_confl.
 
-Theorem C15_placeholder : forall g nx e r, l_type (e_label e) <> gtype r ->
-  replace_edge_model g nx e r = (g, nx, Err ValueErr) \/ True.
-Proof. intros; right; exact I. Qed.
-Print Assumptions C15_placeholder.
+(** replace_edge on a well-formed host / edge / replacement whose externals are pairwise distinct:
+    returns; the result satisfies the replacement specification (exactly the edge removed, rest and
+    ext untouched, externals glued to the attachment nodes in order, other nodes and all edges
+    copied with fresh ids, labels and attachment order kept, ids unique); well-formedness, the
+    counter bound and the label discipline are preserved.  Wrong type: ValueError, nothing changes. *)
+Theorem C15_replace_spec : forall L g nx e r,
+  wf_graphb g = true -> belowb nx g = true -> memb edge_eqb (g_edges g) e = true ->
+  wf_graphb r = true -> nodupb node_eqb (g_ext r) = true ->
+  functionalb L = true -> labels_in L g = true -> labels_in L r = true ->
+  (l_type (e_label e) = gtype r ->
+     exists g' nx' nm em,
+       replace_edge_model g nx e r = (g', nx', Ok (nm, em)) /\
+       replace_spec g e r g' nm em /\
+       wf_graphb g' = true /\ belowb nx' g' = true /\ labels_in L g' = true /\ nx <= nx')
+  /\ (l_type (e_label e) <> gtype r -> replace_edge_model g nx e r = (g, nx, Err ValueErr)).
+Proof. exact replace_spec_main. Qed.
+Print Assumptions C15_replace_spec.
+
+(** an edge whose id is not in the graph: ValueError (after the type check), nothing changes *)
+Theorem C15_replace_absent_edge : forall g nx e r, has_edge_id g (e_id e) = false ->
+  replace_edge_model g nx e r = (g, nx, Err ValueErr).
+Proof. exact replace_absent_edge. Qed.
+Print Assumptions C15_replace_absent_edge.
+
+(** the executable oracle run on every implementation output is sound for the specification *)
+Theorem C15_replace_ok_sound : forall host e repl res nm em,
+  replace_ok host e repl res nm em = true -> replace_spec host e repl res nm em.
+Proof. exact replace_ok_sound. Qed.
+Print Assumptions C15_replace_ok_sound.
+
+(** without the NoDup guard on the externals the code does not identify externals with attachment
+    nodes in order (a repeated external is mapped to the LAST zipped attachment) *)
+Theorem C15_replace_glue_refuted :
+  exists g nx e r g' nx' nm em,
+    wf_graphb g = true /\ belowb nx g = true /\ memb edge_eqb (g_edges g) e = true /\ wf_graphb r = true /\
+    l_type (e_label e) = gtype r /\
+    replace_edge_model g nx e r = (g', nx', Ok (nm, em)) /\
+    map (aget node_eqb nm) (g_ext r) <> map Some (e_att e).
+Proof. exact replace_glue_refuted. Qed.
+Print Assumptions C15_replace_glue_refuted.
+
+(** confluence: for every well-formed derivation tree and EVERY sequence of replacement steps
+    (each step rewrites a currently pending nonterminal edge; a step naming a path that is not
+    pending is the only way a run can fail), when nothing is pending any more the graph is
+    isomorphic, through the accumulated node/edge maps, to the order-free [derived_graph]. *)
+Theorem C15_confluence : forall L t nx,
+  wf_dtreeb L t = true -> functionalb L = true ->
+  forall l,
+    (forall k, run l (init_state t nx) = Err k -> k = OtherErr) /\
+    (forall s, run l (init_state t nx) = Ok s -> rs_pending s = [] ->
+       iso_via (rs_graph s) (rs_nnames s) (rs_enames s) (derived_graph t)).
+Proof. exact confluence_main. Qed.
+Print Assumptions C15_confluence.
+
+Theorem C15_same_upto_naming_sound : forall g nn en d,
+  same_upto_naming g nn en d = true -> iso_via g nn en d.
+Proof. exact same_upto_naming_sound. Qed.
+Print Assumptions C15_same_upto_naming_sound.
